@@ -142,6 +142,7 @@ def do_native(s, prop, obs, tier, jobs):
         to = o.get("timeout_thorough", 1500) if tier == "thorough" else o.get("timeout", 240)
         r = run_native.run_obligation(s, exes[o["pkg"]], o["test"], tier, jobs, to, log, progress=bool(o.get("crash_is_violation")))
         rec = {"obligation": o["name"], "clause": o.get("clause", o["name"]), "backend": "native", "kind": "bounded",
+               "sampled": o.get("sampled") == "always" or (o.get("sampled") == "quick" and tier != "thorough"),
                "bound": r.get("scope") or o.get("scope"), "function": o.get("fn"), "secs": r.get("secs"),
                "evaluations": r.get("evaluations", 0), "distinct_nontrivial": r.get("distinct_nontrivial", 0),
                "samples": r.get("samples", []), "clauses": r.get("clauses", {}), "failures": r.get("failures", []),
@@ -257,7 +258,10 @@ def finish(prop, P, tier, seed, t0, results, fatal, touched, findings):
         "distinct_nontrivial": nontriv,
         "rule": P.get("rule", "bounded obligations enumerate every combination of the stated small scope by choice vector; a case is non-trivial when the function under contract returns something other than its empty-input default (keyed by the obligation's own signature of the case)"),
         "samples": samples or [{"note": "no obligation ran"}],
-        "exhaustive": bool(bounded) and all(r["status"] == "success" for r in bounded),
+        # complete enumeration of a finite space: every bounded obligation ran to the end and none of them is a slice /
+        # a sample in this tier
+        "exhaustive": bool(bounded) and all(r["status"] == "success" and not r.get("sampled") for r in bounded),
+        "sampled_obligations": [r["obligation"] for r in bounded if r.get("sampled")],
         "undecided_clauses": P.get("undecided_clauses", []),
         "functions_under_contract": sorted({r.get("function") for r in results if r.get("function")}),
         "repo_files_sha256": touched,
